@@ -228,7 +228,12 @@ def split_delay_tags(series, hed_schema, onsets):
         duration_tags = delay_string.find_top_level_tags({DefTagNames.DELAY_KEY})
         to_remove = []
         for tag, group in duration_tags:
-            onset_mod = tag.value_as_default_unit() + float(onsets[i])
+            delay = tag.value_as_default_unit()
+            onset = pd.to_numeric(onsets[i], errors='coerce')
+            if delay is None or pd.isna(onset):
+                # No usable delay value or no numeric onset (e.g. n/a): leave the group where it is.
+                continue
+            onset_mod = delay + float(onset)
             to_remove.append(group)
             insert_index = split_df['original_index'].index.max() + 1
             split_df.loc[insert_index] = {'HED': str(group), 'onset': onset_mod, 'original_index': i}
